@@ -1800,6 +1800,40 @@ def m_np_array(interp, x, dtype=None, **k):
     return interp.call_real(np.array, [x], dict(dtype=dtype, **k) if dtype is not None else k)
 
 
+def m_linalg_pinv(interp, A, *a, **k):
+    """library contract for a full-column-rank (tall or square) matrix: pinv(A) = (A^H A)^-1 A^H"""
+    if not contains_sym(A):
+        return interp.call_real(np.linalg.pinv, [A] + list(a), k)
+    A = obj_array(A)
+    if A.ndim != 2 or A.shape[0] < A.shape[1]:
+        raise EngineError("symbolic pinv only modelled for tall/square full-column-rank matrices")
+    AH = np.frompyfunc(lambda v: v.conjugate() if hasattr(v, 'conjugate') else v, 1, 1)(A).T
+    adj, det = _det_inv(np.dot(AH, A))
+    return np.frompyfunc(lambda x: x / det, 1, 1)(np.dot(adj, AH))
+
+
+def m_np_angle(interp, z, *a, **k):
+    """library contract of np.angle: z == |z| (cos a + j sin a) with a = angle(z)"""
+    if not contains_sym(z):
+        return interp.call_real(np.angle, [z] + list(a), k)
+
+    def one(v):
+        if getattr(v, 'polar', None) is not None:
+            return v.polar[1]
+        v = sym.to_complex(v)
+        c = interp.ctx
+        ang = c.fresh_var("angle", "real")
+        m = abs(v)
+        c.add_fact((v.re == m * ang.cos()) & (v.im == m * ang.sin()) & (lift(m) >= 0), "polar form: z = |z| e^{j angle(z)}")
+        ang.polar_of = (v, m)
+        return ang
+    if isinstance(z, np.ndarray):
+        return np.frompyfunc(one, 1, 1)(z)
+    return one(z)
+
+
+DEFAULT_MODELS[np.linalg.pinv] = m_linalg_pinv
+DEFAULT_MODELS[np.angle] = m_np_angle
 DEFAULT_MODELS[np.array] = m_np_array
 DEFAULT_MODELS[np.linalg.inv] = m_linalg_inv
 DEFAULT_MODELS[np.linalg.solve] = m_linalg_solve
